@@ -19,8 +19,9 @@ CHECK_DEADLOCK FALSE
 def agent_models(tier, devs=True):
     n = 4 if tier == 'thorough' else 3
     runs = [ModelRun('TcpclAgent', AGENT_CFG % (n, '{}'), 'agent', workers=8,
-                     note='two agents, <= %d connections (queued / negotiating / established / terminating), shutdown '
-                          'and stop by either side at any moment, every interleaving' % n)]
+                     note='two agents, <= %d connections (queued / negotiating / established / terminating), one transfer '
+                          'per direction and connection, terminate of single sessions, shutdown and stop by either side '
+                          'at any moment, every interleaving' % n)]
     if tier == 'thorough':
         live = AGENT_CFG.replace('SPECIFICATION Spec', 'SPECIFICATION FairSpec').replace(
             'CHECK_DEADLOCK FALSE', 'PROPERTY EndLive\nPROPERTY PeerLive\nCHECK_DEADLOCK FALSE')
@@ -34,6 +35,10 @@ def agent_models(tier, devs=True):
         runs.append(ModelRun('TcpclAgent', AGENT_CFG % (2, '{"shutdown_aborts_before_session"}'), 'agent-dev-shutdown',
                              expect='violation', workers=8,
                              note='shutdown() failing on a connection without a session must be caught'))
+        runs.append(ModelRun('TcpclAgent', AGENT_CFG % (2, '{"shutdown_closes_terminating"}'), 'agent-dev-shutdown-term',
+                             expect='violation', workers=8,
+                             note='shutdown() closing a session that is already terminating (transfer in progress cut) '
+                                  'must be caught'))
     return runs
 
 
